@@ -333,10 +333,15 @@ def problem_text(tree, p):
     return f"{G.describe(tree)} operands={ops}: {p['what']}"
 
 
+CONST_MIX_FAMILIES = ("arith", "cmp", "eq", "bitwise", "cat", "shift")
+
+
 def trees_for(run: Run):
-    if not run.thorough:
-        return list(G.depth1((1, 2, 3), mixed=True, families=FAMILIES))
-    return list(G.depth1((1, 2, 3, 4), mixed=True, families=FAMILIES))
+    """plus the operations with ONE operand replaced by a typed constant: there the run-time way (3) is the mixed
+    form (constant operand next to an input port), compared with the all-constant ways (1) and (2)"""
+    ws = (1, 2, 3, 4) if run.thorough else (1, 2, 3)
+    return (list(G.depth1(ws, mixed=True, families=FAMILIES))
+            + list(G.depth1_const(ws, mixed=True, families=CONST_MIX_FAMILIES)))
 
 
 def main(run: Run):
